@@ -34,7 +34,7 @@ man = {
     "hooks": {
         "guard": "verif-overlay",
         "enable": "no source change in /repo: every check builds /repo's working tree with `go1.26 test -c -overlay <generated overlay.json>` (tools/mkoverlay): import paths sync/time -> shim packages, select -> priority cascade, harness added as in-package test files",
-        "baseline_off_cmd": "cd /repo && go test -vet=off -count=1 -timeout 25m ./...",
+        "baseline_off_cmd": "cd /repo && GOFLAGS=-mod=mod GOPROXY=off go test -vet=off -count=1 -timeout 25m ./...",
         "source_commits": [],
         "add_only": True,
     },
